@@ -80,7 +80,7 @@ class TLCResult:
 
 
 _PRINT_RE = re.compile(r'^<<"([A-Z_]+)", (".*")>>$')
-_COV_RE = re.compile(r'^<(\w+) line \d+, col \d+ to line \d+, col \d+ of module (\w+)>: (\d+):(\d+)')
+_COV_RE = re.compile(r'^<(\w+) line \d+, col \d+ to line \d+, col \d+ of module (\w+)(?: \([\d ]+\))?>: (\d+):(\d+)')
 
 
 def run_tlc(ctx, module, cfg, *, workers=8, simulate=None, depth=None, timeout=600,
@@ -136,7 +136,7 @@ def run_tlc(ctx, module, cfg, *, workers=8, simulate=None, depth=None, timeout=6
             name = m.group(1)
             d, g = int(m.group(3)), int(m.group(4))
             od, og = res.actions.get(name, (0, 0))
-            res.actions[name] = (max(od, d), max(og, g))
+            res.actions[name] = (od + d, og + g)
             continue
         m = re.match(r"^(\d+) states generated, (\d+) distinct states found", line)
         if m:
